@@ -123,7 +123,8 @@ def gen(rng, tier="quick", prop="C06"):
     def gen_change(b):
         rob = robots[b]
         r = rng.random()
-        frees = [f for (bb, f) in free_parent if bb == b]
+        sl = {q["sliver"] for q in sliver_queries.get(b, [])}
+        frees = [f for (bb, f) in free_parent if bb == b and f not in sl and ("free%d" % (int(f[4:]) + 1)) not in sl]
         if r < 0.7 and rob["joints"]:
             j = rng.choice(rob["joints"])
             c = rng.random()
@@ -171,10 +172,51 @@ def gen(rng, tier="quick", prop="C06"):
         if prop == "C19" and ops[-1]["op"] not in ("detect", "detect_any"):
             ops[-1] = {"op": rng.choice(["detect", "detect_any"]), "b": b}
 
+    sliver_queries = {}
+
+    def gen_sliver(b):
+        """Two sphere colliders whose AABB faces nearly coincide (the second sticks out by a hair) and a query sphere
+        whose AABB touches exactly that hair: the broad phase must still report the second one."""
+        nonlocal nfree
+        import math as _m
+        c = [0.5 * rng.randint(-6, 6) for _ in range(3)]
+        r = rng.choice([0.5, 1.0])
+        i = rng.randrange(3)
+        step = rng.choice(["ulp", 1e-12, 4e-10])
+        c2 = list(c)
+        c2[i] = _m.nextafter(c[i], _m.inf) if step == "ulp" else c[i] + step * max(1.0, abs(c[i]))
+        hi = c2[i] + r
+        qr = 1.0
+        q = list(c)
+        q[i] = hi + qr
+        for _ in range(4):
+            if q[i] - qr == hi:
+                break
+            q[i] = _m.nextafter(q[i], _m.inf if q[i] - qr < hi else -_m.inf)
+        if q[i] - qr != hi or not (c[i] + r < hi):
+            return
+        names = []
+        for cc in (c, c2):
+            frame = "free%d" % nfree
+            nfree += 1
+            T = np.eye(4)
+            T[:3, 3] = cc
+            ops.append({"op": "free", "b": b, "frame": frame, "parent": "origin", "spec": {"kind": "sphere", "radius": r},
+                        "pose": T.tolist(), "wl": [frame], "wl_into": []})
+            frames[b] = sorted(frames[b] + [frame])
+            free_parent[(b, frame)] = "origin"
+            names.append(frame)
+        Tq = np.eye(4)
+        Tq[:3, 3] = q
+        sliver_queries.setdefault(b, []).append({"op": "qcol", "b": b, "spec": {"kind": "sphere", "radius": qr},
+                                                 "pose": Tq.tolist(), "wl": [], "sliver": names[1]})
+
     if "free" in faults:
         for b in range(nb):
             for _ in range(rng.randint(0, 3)):
                 gen_free(b)
+            if rng.chance(0.3):
+                gen_sliver(b)
     nsteps = rng.randint(3, 10) if tier == "quick" else rng.randint(5, 30)
     for _ in range(nsteps):
         b = rng.randrange(nb)
@@ -190,6 +232,8 @@ def gen(rng, tier="quick", prop="C06"):
         ops.append(op)
         for _ in range(rng.randint(0, 3)):
             gen_query(rng.randrange(nb) if rng.chance(0.3) else b)
+        if sliver_queries.get(b) and rng.chance(0.6):
+            ops.append(dict(rng.choice(sliver_queries[b])))
     return {"world": WORLD, "cfg": cfg, "ops": ops}
 
 
@@ -532,6 +576,10 @@ def stats(plan, jr):
                     inc("probe.qself_pairs", len(o["pairs"]))
                 if kind == "qcol":
                     inc("probe.qcol_hits", len(o["got"]))
+                    if op.get("sliver"):
+                        inc("probe.sliver_query")
+                        if op["sliver"] in o["got"]:
+                            inc("probe.sliver_query_hit_by_touching_face")
                 if kind == "qother":
                     inc("probe.qother_pairs", len(o["pairs"]))
     s["nontrivial"] = 1 if changed and judged else 0
